@@ -93,9 +93,10 @@ func init() {
 	RegisterKind("snap-chan-range", "C08")
 	RegisterKind("snap-family", "C01")
 	RegisterKind("snap-denied", "C01")
-	RegisterKind("lock-held", "C18", "C16")
+	RegisterKind("lock-held", "C18", "C16", "C09", "C12", "C13")
 	RegisterKind("snap-cross-effect", "C04")
 	RegisterKind("goroutines-left-blocked", "C09", "C13", "C15", "C18")
+	RegisterKind("mutex-wedged", "C09", "C12", "C13", "C16", "C18")
 	RegisterKind("linearizability", "C04", "C18")
 	RegisterKind("count-mismatch", "C04", "C06", "C15")
 	// request outcomes
